@@ -20,6 +20,7 @@ CONSTANTS
   OptFlags,    \* flags switched by the "opts" family
   PushLens,    \* lengths of Push batches
   DstCaps,     \* capacities of the Transfer destination
+  DstOps,      \* calls issued on the second handle: subset of {"push","pop","ronly","nnest"}
   IdxMode,     \* "existing": Remove/Replace/Swap only address existing positions (C01);
                \* "all": every index incl. out-of-range and MinInt/MaxInt stand-ins (C08)
   OUT          \* file the transition table is written to ("" = do not emit)
@@ -65,10 +66,10 @@ DefragCalls(s) ==
   {[op |-> "Defrag", m |-> m] : m \in {x \in {0, 1, 2, 3} : MaxNilRun(s.e, 0, 0) < DefragLimit(x)}}
 
 SettingCalls(s) ==
-       {[op |-> "SetID", v |-> v] : v \in {"", "x", "y"}}
+       {[op |-> "SetID", v |-> v] : v \in {"", "x"}}
   \cup {[op |-> "SetCategory", v |-> v] : v \in {"", "k"}}
-  \cup {[op |-> "SetDelimiter", form |-> "str", v |-> v] : v \in {"", ",", "; "}}
-  \cup {[op |-> "SetDelimiter", form |-> "rune", v |-> ","], [op |-> "SetDelimiter", form |-> "nil", v |-> ""],
+  \cup {[op |-> "SetDelimiter", form |-> "str", v |-> v] : v \in {"", ","}}
+  \cup {[op |-> "SetDelimiter", form |-> "rune", v |-> ";"], [op |-> "SetDelimiter", form |-> "nil", v |-> ""],
         [op |-> "SetDelimiter", form |-> "int", v |-> ""]}
   \cup {[op |-> "SetSymbol", parts |-> p] :
           p \in {<<>>, <<[form |-> "str", v |-> "&"]>>, <<[form |-> "str", v |-> "|"], [form |-> "rune", v |-> "|"]>>,
@@ -77,8 +78,14 @@ SettingCalls(s) ==
           p \in {<<>>, <<<<"\"">>>>, <<<<"<", ">">>>>, <<<<"<", ">">>, <<"\"">>>>, <<<<"\"", ">">>>>,
                  <<<<"(", ")">>>>}}
 
+GrowCalls == {[op |-> "Push", xs |-> xs] : xs \in Batches} \cup {[op |-> "Pop"], [op |-> "SetFIFO", b |-> TRUE]}
+
+MarshalCalls == {[op |-> "Marshal", kind |-> k, xs |-> xs] : k \in {"AND", "LIST"}, xs \in {<<>>, <<"a">>, <<"a", "nil">>}}
+
 Calls(s) ==
        (IF "list" \in Fams THEN ListCalls(s) ELSE {})
+  \cup (IF "grow" \in Fams THEN GrowCalls ELSE {})
+  \cup (IF "marshal" \in Fams THEN MarshalCalls ELSE {})
   \cup (IF "opts" \in Fams THEN OptCalls ELSE {})
   \cup (IF "policy" \in Fams THEN PolCalls ELSE {})
   \cup (IF "life" \in Fams THEN LifeCalls ELSE {})
@@ -98,9 +105,10 @@ Init == st \in InitStates /\ dst \in DstStates
 Forms == {"native", "alias", "ptr", "foreign"}
 
 DstCalls == IF "transfer" \in Fams
-            THEN {[op |-> "Push", xs |-> xs] : xs \in Batches} \cup
-                 {[op |-> "Pop"], [op |-> "SetOpt", f |-> "ronly", m |-> "toggle"],
-                  [op |-> "SetOpt", f |-> "nnest", m |-> "toggle"]}
+            THEN (IF "push" \in DstOps THEN {[op |-> "Push", xs |-> xs] : xs \in Batches} ELSE {}) \cup
+                 (IF "pop" \in DstOps THEN {[op |-> "Pop"]} ELSE {}) \cup
+                 (IF "ronly" \in DstOps THEN {[op |-> "SetOpt", f |-> "ronly", m |-> "toggle"]} ELSE {}) \cup
+                 (IF "nnest" \in DstOps THEN {[op |-> "SetOpt", f |-> "nnest", m |-> "toggle"]} ELSE {})
             ELSE {}
 XferCalls == IF "transfer" \in Fams
              THEN {[op |-> "Transfer", form |-> f, dir |-> d] : f \in Forms, d \in {"fwd", "back"}}
@@ -179,7 +187,7 @@ ReadOnlyFrame(s, t) ==
      /\ (t.c.op = "Free" => t.ret = <<"err">>)
 
 \* C17: a dead handle stays dead and returns zero results
-Inert(s, t) == (t.on = "st" /\ ~s.live /\ t.c.op # "Transfer") => (t.s = s /\ t.ret = ZeroRet(t.c))
+Inert(s, t) == (t.on = "st" /\ ~s.live /\ t.c.op \notin {"Transfer", "Marshal"}) => (t.s = s /\ t.ret = ZeroRet(t.c))
 
 \* C18: an option switch changes exactly its own flag and nothing else
 OptIndependence(s, t) ==
@@ -230,7 +238,7 @@ StepProps ==
 
 \* genuine action properties
 FifoLatch == [][(st.live /\ st'.live /\ st.fifo) => st'.fifo]_vars
-DeadStaysDead == [][~st.live => ~st'.live]_vars
+DeadStaysDead == [][(~st.live /\ "marshal" \notin Fams) => ~st'.live]_vars
 
 -----------------------------------------------------------------------------
 (* Transition-table emission: one JSON line per distinct abstract state,   *)
